@@ -217,7 +217,7 @@ theorem fresh_coerce (hwf : WF C) {s : State V} {p : Field}
   obtain ⟨h1, h2⟩ := h r hr hrp v hv
   exact ⟨h1, fun _ => h2 (by simp)⟩
 
-/-- the dependants loop (schema.py:365-371), when nothing escaped, discharges the pending set -/
+/-- the dependants loop (schema.py:357-362), when nothing escaped, discharges the pending set -/
 theorem pending_loop (hwf : WF C) {f : Field} (hf : f ∈ C.fields) :
     ∀ (l : List String), (∀ q ∈ l, q ∈ f.dependants) → ∀ s : State V, FreshPending C W l s →
       (coerceList false C W s l).2 = false → Fresh C W (coerceList false C W s l).1 := by
